@@ -39,6 +39,14 @@ TCrash == /\ Is("Crash") /\ Adv
           /\ excused' = excused \cup open /\ open' = {} /\ crashed' = TRUE
           /\ UNCHANGED <<run, injected, released, viol>>
 
+\* the same window, hit by a refused write instead of a crash: the step fails after the batch was taken and before the
+\* block that contains it was first saved; the next step takes the next batch
+\* (for the clause "in the absence of crashes no transaction is included twice" a refused write counts as the fault it
+\* is: hand-off and seen-marker are two writes, a failure between them is answered by handing off again)
+TKVFail == /\ Is("KVFail") /\ Adv
+           /\ excused' = excused \cup open /\ open' = {} /\ crashed' = TRUE
+           /\ UNCHANGED <<run, injected, released, viol>>
+
 RECURSIVE EmbedsIn(_, _)
 EmbedsIn(small, big) == IF small = <<>> THEN TRUE ELSE IF big = <<>> THEN FALSE
                         ELSE IF Head(small) = Head(big) THEN EmbedsIn(Tail(small), Tail(big)) ELSE EmbedsIn(small, Tail(big))
@@ -63,10 +71,10 @@ TObs ==
 TPanic == /\ Is("Panic") /\ Adv /\ viol' = viol \o Failed(<< <<"C11.Panic", FALSE, "panic in node code">> >>, l, run)
           /\ UNCHANGED <<run, injected, open, excused, crashed, released>>
 
-TOther == /\ l <= N /\ Adv /\ ~(e.ev \in {"Reset", "Inject", "SeqNext", "KV", "Crash", "Panic"}) /\ ~(e.ev = "Obs" /\ e.tag = "settled")
+TOther == /\ l <= N /\ Adv /\ ~(e.ev \in {"Reset", "Inject", "SeqNext", "KV", "KVFail", "Crash", "Panic"}) /\ ~(e.ev = "Obs" /\ e.tag = "settled")
           /\ UNCHANGED <<run, injected, open, excused, crashed, released, viol>>
 
-Next == TReset \/ TInject \/ TSeqNext \/ TKV \/ TCrash \/ TObs \/ TPanic \/ TOther
+Next == TReset \/ TInject \/ TSeqNext \/ TKV \/ TKVFail \/ TCrash \/ TObs \/ TPanic \/ TOther
 Spec == Init /\ [][Next]_vars
 Finish == (l = N + 1) => ndJsonSerialize("viol.ndjson", viol)
 Consumed == TLCGet("stats").diameter = N + 1
